@@ -476,6 +476,126 @@ proof fn lemma_walk_visited<S: State, SP: StateSpace<StateType = S>, G: Goal<S>>
 }
 '''
 
+VOCAB += r'''
+// ---- hop-minimality (C18): the first goal milestone dequeued by the breadth-first search is a nearest one
+/// every visited node's BFS depth is at most its position in ANY walk from a start connection
+#[verifier::opaque]
+spec fn bfs_min_ok<S: State, SP: StateSpace<StateType = S>>(rm: Seq<Node<S>>, sp: &SP, vc: &dyn StateValidityChecker<S>, start: &S, radius: f64, visited: Seq<bool>, depth: Map<usize, nat>) -> bool {
+    forall|w: Seq<int>, k: int| #![trigger q_walk(rm, sp, vc, start, radius, w), visited[w[k]]]
+        q_walk(rm, sp, vc, start, radius, w) && 0 <= k < w.len() && visited[w[k]] ==> depth.contains_key(w[k] as usize) && depth[w[k] as usize] <= k
+}
+spec fn queue_depths(queue: Seq<usize>, depth: Map<usize, nat>, lo: nat) -> bool {
+    &&& forall|a: int| 0 <= a < queue.len() ==> depth.contains_key(#[trigger] queue[a]) && lo <= depth[queue[a]] <= lo + 1
+    &&& forall|a: int, b: int| 0 <= a <= b < queue.len() ==> depth[#[trigger] queue[a]] <= depth[#[trigger] queue[b]]
+}
+/// every goal-ending walk visits at least n milestones
+spec fn goal_min<S: State, SP: StateSpace<StateType = S>, G: Goal<S>>(rm: Seq<Node<S>>, sp: &SP, vc: &dyn StateValidityChecker<S>, start: &S, radius: f64, goal: &G, n: int) -> bool {
+    forall|w: Seq<int>| #[trigger] q_walk(rm, sp, vc, start, radius, w) && goal.sat(&rm[w[w.len() - 1]].state) ==> n <= w.len()
+}
+/// on a walk, in front of an unvisited node there is a visited node that is not finished yet (it is in the queue or current)
+proof fn lemma_frontier_witness<S: State, SP: StateSpace<StateType = S>, G: Goal<S>>(rm: Seq<Node<S>>, sp: &SP, vc: &dyn StateValidityChecker<S>, start: &S, radius: f64, goal: &G,
+        visited: Seq<bool>, done: Set<int>, w: Seq<int>, k: int) -> (j: int)
+    requires bfs_done_ok(rm, goal, visited, done), visited.len() == rm.len(), rm.len() <= usize::MAX, q_walk(rm, sp, vc, start, radius, w), 0 <= k < w.len(), !visited[w[k]],
+        forall|i: int| 0 <= i < rm.len() && start_conn(rm, sp, vc, start, radius, i) ==> #[trigger] visited[i],
+    ensures 0 <= j < k, visited[w[j]], !done.contains(w[j])
+    decreases k
+{
+    reveal(bfs_done_ok);
+    if k == 0 { assert(visited[w[0]]); 0 }
+    else if visited[w[k - 1]] {
+        if done.contains(w[k - 1]) {
+            let a = w[k - 1];
+            assert(rm[a].edges@.contains(w[k] as usize));
+            let kk = choose|kk: int| 0 <= kk < rm[a].edges@.len() && rm[a].edges@[kk] == w[k] as usize;
+            assert(visited[rm[a].edges@[kk] as int]);
+        }
+        k - 1
+    } else {
+        lemma_frontier_witness(rm, sp, vc, start, radius, goal, visited, done, w, k - 1)
+    }
+}
+proof fn lemma_min_seeded<S: State, SP: StateSpace<StateType = S>>(rm: Seq<Node<S>>, sp: &SP, vc: &dyn StateValidityChecker<S>, start: &S, radius: f64, visited: Seq<bool>, depth: Map<usize, nat>)
+    requires visited.len() == rm.len(), rm.len() <= usize::MAX, forall|i: int| 0 <= i < visited.len() && #[trigger] visited[i] ==> depth.contains_key(i as usize) && depth[i as usize] == 0
+    ensures bfs_min_ok(rm, sp, vc, start, radius, visited, depth)
+{ reveal(bfs_min_ok); }
+/// discovering n from the current node c (depth d(c) + 1) keeps depths minimal
+proof fn lemma_min_mark<S: State, SP: StateSpace<StateType = S>, G: Goal<S>>(rm: Seq<Node<S>>, sp: &SP, vc: &dyn StateValidityChecker<S>, start: &S, radius: f64, goal: &G,
+        v0: Seq<bool>, v1: Seq<bool>, d0: Map<usize, nat>, d1: Map<usize, nat>, done: Set<int>, queue: Seq<usize>, c: usize, n: usize)
+    requires bfs_min_ok(rm, sp, vc, start, radius, v0, d0), bfs_done_ok(rm, goal, v0, done), v0.len() == rm.len(), rm.len() <= usize::MAX,
+        (n as int) < rm.len(), (c as int) < rm.len(), !v0[n as int], v1 =~= v0.update(n as int, true), d0.contains_key(c), d1 == d0.insert(n, d0[c] + 1),
+        forall|i: int| 0 <= i < rm.len() && start_conn(rm, sp, vc, start, radius, i) ==> #[trigger] v0[i],
+        forall|i: int| 0 <= i < v0.len() && #[trigger] v0[i] ==> queue.contains(i as usize) || done.contains(i) || i == c as int,
+        forall|a: int| 0 <= a < queue.len() ==> d0.contains_key(#[trigger] queue[a]) && d0[c] <= d0[queue[a]],
+    ensures bfs_min_ok(rm, sp, vc, start, radius, v1, d1)
+{
+    reveal(bfs_min_ok);
+    assert forall|w: Seq<int>, k: int| #![trigger q_walk(rm, sp, vc, start, radius, w), v1[w[k]]]
+        q_walk(rm, sp, vc, start, radius, w) && 0 <= k < w.len() && v1[w[k]] implies d1.contains_key(w[k] as usize) && d1[w[k] as usize] <= k by
+    {
+        if w[k] == n as int {
+            let j = lemma_frontier_witness(rm, sp, vc, start, radius, goal, v0, done, w, k);
+            assert(v0[w[j]]);
+            assert(d0.contains_key(w[j] as usize) && d0[w[j] as usize] <= j);
+            if w[j] != c as int {
+                assert(queue.contains(w[j] as usize));
+                let a = choose|a: int| 0 <= a < queue.len() && queue[a] == w[j] as usize;
+                assert(d0[c] <= d0[queue[a]]);
+            }
+        } else {
+            assert(v0[w[k]]);
+            assert(d0.contains_key(w[k] as usize) && d0[w[k] as usize] <= k);
+        }
+    }
+}
+/// when the current node g satisfies the goal, every goal-ending walk visits at least depth(g) + 1 milestones
+proof fn lemma_min_goal<S: State, SP: StateSpace<StateType = S>, G: Goal<S>>(rm: Seq<Node<S>>, sp: &SP, vc: &dyn StateValidityChecker<S>, start: &S, radius: f64, goal: &G,
+        visited: Seq<bool>, depth: Map<usize, nat>, done: Set<int>, queue: Seq<usize>, g: usize)
+    requires bfs_min_ok(rm, sp, vc, start, radius, visited, depth), bfs_done_ok(rm, goal, visited, done), visited.len() == rm.len(), rm.len() <= usize::MAX,
+        (g as int) < rm.len(), depth.contains_key(g),
+        forall|i: int| 0 <= i < rm.len() && start_conn(rm, sp, vc, start, radius, i) ==> #[trigger] visited[i],
+        forall|i: int| 0 <= i < visited.len() && #[trigger] visited[i] ==> queue.contains(i as usize) || done.contains(i) || i == g as int,
+        forall|a: int| 0 <= a < queue.len() ==> depth.contains_key(#[trigger] queue[a]) && depth[g] <= depth[queue[a]],
+    ensures goal_min(rm, sp, vc, start, radius, goal, depth[g] as int + 1)
+{
+    reveal(bfs_min_ok); reveal(bfs_done_ok);
+    assert forall|w: Seq<int>| #[trigger] q_walk(rm, sp, vc, start, radius, w) && goal.sat(&rm[w[w.len() - 1]].state) implies depth[g] as int + 1 <= w.len() by {
+        let k = w.len() - 1;
+        let h = w[k];
+        if visited[h] {
+            assert(depth.contains_key(h as usize) && depth[h as usize] <= k);
+            if h != g as int {
+                // h is a goal, so it is not finished: it is in the queue, behind g
+                assert(!done.contains(h));
+                assert(queue.contains(h as usize));
+                let a = choose|a: int| 0 <= a < queue.len() && queue[a] == h as usize;
+                assert(depth[g] <= depth[queue[a]]);
+            }
+        } else {
+            let j = lemma_frontier_witness(rm, sp, vc, start, radius, goal, visited, done, w, k);
+            assert(visited[w[j]]);
+            assert(depth.contains_key(w[j] as usize) && depth[w[j] as usize] <= j);
+            if w[j] != g as int {
+                assert(queue.contains(w[j] as usize));
+                let a = choose|a: int| 0 <= a < queue.len() && queue[a] == w[j] as usize;
+                assert(depth[g] <= depth[queue[a]]);
+            }
+        }
+    }
+}
+/// the chain from i has exactly depth(i) + 1 elements
+proof fn lemma_pm_up_len<S: State>(pm: Map<usize, Option<usize>>, depth: Map<usize, nat>, rm: Seq<Node<S>>, sc: Seq<usize>, i: usize)
+    requires pm_ok(pm, depth, rm, sc), pm.contains_key(i)
+    ensures pm_up(pm, depth, i).len() == depth[i] + 1
+    decreases depth[i]
+{
+    reveal(pm_ok);
+    if pm[i] is Some {
+        lemma_pm_up_len(pm, depth, rm, sc, pm[i]->Some_0);
+        assert(pm_up(pm, depth, i) =~= seq![i] + pm_up(pm, depth, pm[i]->Some_0));
+    }
+}
+'''
+
 ann('top', '', VOCAB, 'prm.vocab')
 for g in ('S', 'SP', 'G'):
     ann('struct PRM', 'attr', '#[verifier::reject_recursive_types(%s)]' % g, 'prm.attr.' + g)
@@ -508,6 +628,10 @@ ann('impl#1', 'impl-start', r'''
     }
     pub closed spec fn no_goal_reachable(&self) -> bool {
         no_reachable_goal(self.roadmap@, &*self.cur_pd().space, &*self.cur_vc(), &self.cur_pd().start_states@[0], self.connection_radius, &*self.cur_pd().goal)
+    }
+    /// every walk from a start connection to a goal milestone visits at least n milestones
+    pub closed spec fn fewest_milestones(&self, n: int) -> bool {
+        goal_min(self.roadmap@, &*self.cur_pd().space, &*self.cur_vc(), &self.cur_pd().start_states@[0], self.connection_radius, &*self.cur_pd().goal, n)
     }
     pub closed spec fn sp_radius(&self) -> f64 { self.connection_radius }
     pub closed spec fn sp_timeout(&self) -> f64 { self.timeout }
@@ -810,6 +934,8 @@ ann('fn solve', 'sig', r"""
             r is Err ==> (r->Err_0 is Timeout || r->Err_0 is NoSolutionFound || r->Err_0 is InvalidStartState || r->Err_0 is UnsampledStateSpace || r->Err_0 is PlannerUninitialised),   //@ result_domain [C06]
             final(self).roadmap_states() == old(self).roadmap_states(), final(self).roadmap_adj() == old(self).roadmap_adj(),   //@ roadmap_frame [C18]
             final(self).sp_radius() == old(self).sp_radius(), final(self).sp_timeout() == old(self).sp_timeout(),
+            // C18 hop-minimality: no walk from a start connection to a goal milestone visits fewer milestones than the returned path
+            (old(self).p_is_setup() && r is Ok) ==> old(self).fewest_milestones(r->Ok_0.0.len() as int - 1),      //@ fewest_milestones [C18]
             // C18 query completeness: NoSolutionFound only if no milestone satisfying the goal is reachable from a start connection
             (old(self).p_is_setup() && r == Err::<Path<S>, PlanningError>(PlanningError::NoSolutionFound)) ==> old(self).no_goal_reachable(),   //@ complete [C18]
             (old(self).p_is_setup() && metric_ok(&*old(self).p_pd().space) && old(self).p_edges_le(old(self).p_step_limit())) ==> {
@@ -907,6 +1033,7 @@ ann('fn solve', 'loop while#1', r"""
                 forall|k: int| 0 <= k < idx__k ==> parent_map@.contains_key(#[trigger] start_connections@[k]),
                 forall|k: int| 0 <= k < start_connections@.len() ==> queue@.contains(#[trigger] start_connections@[k]),
                 forall|i: int| 0 <= i < visited@.len() && #[trigger] visited@[i] ==> start_connections@.contains(i as usize),
+                forall|k: usize| #[trigger] g_depth.contains_key(k) ==> g_depth[k] == 0,
                 forall|j: int| 0 <= j < self.roadmap@.len() && start_conn(self.roadmap@, &*pd.space, &**vc, start_state, self.connection_radius, j) ==> start_connections@.contains(j as usize),
                 forall|j: int| 0 <= j < self.roadmap@.len() && goal.sat(&(#[trigger] self.roadmap@[j]).state) ==> goal_indices@.contains(j as usize),
                 forall|k: int| 0 <= k < goal_indices@.len() ==> 0 <= (#[trigger] goal_indices@[k]) < self.roadmap@.len() && goal.sat(&self.roadmap@[goal_indices@[k] as int].state),
@@ -947,6 +1074,9 @@ ann('fn solve', 'loop-after while#1', r"""
             }
             lemma_done_empty(self.roadmap@, &**goal, visited@);
             g_qhead = queue@;
+            reveal(pm_ok);
+            lemma_min_seeded(self.roadmap@, &*pd.space, &**vc, start_state, self.connection_radius, visited@, g_depth);
+            assert(queue_depths(queue@, g_depth, 0));
             // every start connection is visited, every visited index is in the queue
             assert forall|k: int| 0 <= k < start_connections@.len() implies visited@[(#[trigger] start_connections@[k]) as int] by {
                 assert(parent_map@.contains_key(start_connections@[k]));
@@ -961,6 +1091,8 @@ ann('fn solve', 'loop while#2', r"""
             invariant_except_break
                 goal_reached is None,
                 g_qhead == queue@,
+                bfs_min_ok(self.roadmap@, &*pd.space, &**vc, start_state, self.connection_radius, visited@, g_depth),   //@ bfs_depth_minimal [C18]
+                queue@.len() > 0 ==> g_depth.contains_key(queue@[0]) && queue_depths(queue@, g_depth, g_depth[queue@[0]]),   //@ bfs_queue_sorted [C18]
                 forall|i: int| 0 <= i < visited@.len() && #[trigger] visited@[i] ==> queue@.contains(i as usize) || g_done.contains(i),   //@ bfs_frontier [C18]
                 bfs_done_ok(self.roadmap@, &**goal, visited@, g_done),                                              //@ bfs_finished [C18]
             invariant
@@ -981,6 +1113,8 @@ ann('fn solve', 'loop while#2', r"""
                 forall|j: int| 0 <= j < self.roadmap@.len() && start_conn(self.roadmap@, &*pd.space, &**vc, start_state, self.connection_radius, j) ==> start_connections@.contains(j as usize),
                 forall|j: int| 0 <= j < self.roadmap@.len() && goal.sat(&(#[trigger] self.roadmap@[j]).state) ==> goal_indices@.contains(j as usize),
             ensures
+                goal_reached is Some ==> g_depth.contains_key(goal_reached->Some_0)
+                    && goal_min(self.roadmap@, &*pd.space, &**vc, start_state, self.connection_radius, &**goal, g_depth[goal_reached->Some_0] as int + 1),   //@ first_goal_is_nearest [C18]
                 goal_reached is None ==> queue@.len() == 0,
                 goal_reached is None ==> bfs_done_ok(self.roadmap@, &**goal, visited@, g_done),
                 goal_reached is None ==> forall|i: int| 0 <= i < visited@.len() && #[trigger] visited@[i] ==> queue@.contains(i as usize) || g_done.contains(i),
@@ -989,6 +1123,16 @@ ann('fn solve', 'loop-body-start while#2', r"""
             proof {
                 // everything that was in the queue before the pop is still in it, except possibly current_idx
                 assert(current_idx == g_qhead[0] && queue@ =~= g_qhead.subrange(1, g_qhead.len() as int));
+                assert(queue_depths(queue@, g_depth, g_depth[current_idx])) by {
+                    assert forall|a: int| 0 <= a < queue@.len() implies g_depth.contains_key(#[trigger] queue@[a]) && g_depth[current_idx] <= g_depth[queue@[a]] <= g_depth[current_idx] + 1 by {
+                        assert(queue@[a] == g_qhead[a + 1]);
+                        assert(g_depth[g_qhead[0]] <= g_depth[g_qhead[a + 1]]);
+                    }
+                    assert forall|a: int, b: int| 0 <= a <= b < queue@.len() implies g_depth[#[trigger] queue@[a]] <= g_depth[#[trigger] queue@[b]] by {
+                        assert(queue@[a] == g_qhead[a + 1] && queue@[b] == g_qhead[b + 1]);
+                        assert(g_depth[g_qhead[a + 1]] <= g_depth[g_qhead[b + 1]]);
+                    }
+                }
                 assert forall|i: int| 0 <= i < visited@.len() && #[trigger] visited@[i] implies queue@.contains(i as usize) || g_done.contains(i) || i == current_idx as int by {
                     if !g_done.contains(i) {
                         let w = choose|w: int| 0 <= w < g_qhead.len() && g_qhead[w] == i as usize;
@@ -1004,6 +1148,13 @@ ann('fn solve', 'loop-end while#2', r"""
                 lemma_done_add(self.roadmap@, &**goal, visited@, g_done, current_idx as int);
                 g_done = g_done.insert(current_idx as int);
                 g_qhead = queue@;
+                if queue@.len() > 0 {
+                    assert(queue_depths(queue@, g_depth, g_depth[queue@[0]])) by {
+                        assert forall|a: int| 0 <= a < queue@.len() implies g_depth.contains_key(#[trigger] queue@[a]) && g_depth[queue@[0]] <= g_depth[queue@[a]] <= g_depth[queue@[0]] + 1 by {
+                            assert(g_depth[queue@[0]] <= g_depth[queue@[a]]);
+                        }
+                    }
+                }
             }
 """, 'prm.solve.bfs.finish', tags=['C18'])
 ann('fn solve', 'after /if elapsed__v > timeout \{[^}]*\}/', r"""
@@ -1014,6 +1165,12 @@ ann('fn solve', 'after /goal_reached = Some\(current_idx\);/', r"""
                 proof {
                     let w = choose|w: int| 0 <= w < goal_indices@.len() && goal_indices@[w] == current_idx;
                     assert(goal.sat(&self.roadmap@[goal_indices@[w] as int].state));
+                    reveal(pm_ok);
+                    assert forall|i: int| 0 <= i < self.roadmap@.len() && start_conn(self.roadmap@, &*pd.space, &**vc, start_state, self.connection_radius, i) implies #[trigger] visited@[i] by {
+                        let z = choose|z: int| 0 <= z < start_connections@.len() && start_connections@[z] == i as usize;
+                        assert(visited@[start_connections@[z] as int]);
+                    }
+                    lemma_min_goal(self.roadmap@, &*pd.space, &**vc, start_state, self.connection_radius, &**goal, visited@, g_depth, g_done, queue@, current_idx);
                 }
 """, 'prm.solve.goal_hit')
 ann('fn solve', 'loop while#3', r"""
@@ -1034,6 +1191,9 @@ ann('fn solve', 'loop while#3', r"""
                     forall|i: int| 0 <= i < visited@.len() && #[trigger] visited@[i] ==> queue@.contains(i as usize) || g_done.contains(i) || i == current_idx as int,
                     bfs_done_ok(self.roadmap@, &**goal, visited@, g_done),
                     forall|k: int| 0 <= k < neighbor_idx__k ==> 0 <= (#[trigger] self.roadmap@[current_idx as int].edges@[k]) < visited@.len() && visited@[self.roadmap@[current_idx as int].edges@[k] as int],   //@ neighbours_visited [C18]
+                    bfs_min_ok(self.roadmap@, &*pd.space, &**vc, start_state, self.connection_radius, visited@, g_depth),   //@ depth_minimal_inner [C18]
+                    g_depth.contains_key(current_idx), queue_depths(queue@, g_depth, g_depth[current_idx]),
+                    forall|j: int| 0 <= j < self.roadmap@.len() && start_conn(self.roadmap@, &*pd.space, &**vc, start_state, self.connection_radius, j) ==> start_connections@.contains(j as usize),
                 decreases self.roadmap@[current_idx as int].edges@.len() - neighbor_idx__k,
 """, 'prm.solve.nb.loop', tags=['C18'])
 ann('fn solve', 'loop-body-start while#3', r"""
@@ -1044,7 +1204,20 @@ ann('fn solve', 'loop-body-start while#3', r"""
 ann('fn solve', 'before /parent_map\.insert\(neighbor_idx, Some\(current_idx\)\);/', r"""
                         proof {
                             lemma_pm_insert(parent_map@, g_depth, self.roadmap@, start_connections@, neighbor_idx, current_idx);
+                            assert forall|i: int| 0 <= i < self.roadmap@.len() && start_conn(self.roadmap@, &*pd.space, &**vc, start_state, self.connection_radius, i) implies #[trigger] g_v0[i] by {
+                                let z = choose|z: int| 0 <= z < start_connections@.len() && start_connections@[z] == i as usize;
+                                assert(g_v0[start_connections@[z] as int]);
+                            }
+                            lemma_min_mark(self.roadmap@, &*pd.space, &**vc, start_state, self.connection_radius, &**goal, g_v0, visited@, g_depth, g_depth.insert(neighbor_idx, g_depth[current_idx] + 1),
+                                g_done, queue@, current_idx, neighbor_idx);
+                            let ghost d_old = g_depth;
                             g_depth = g_depth.insert(neighbor_idx, g_depth[current_idx] + 1);
+                            assert(!d_old.contains_key(neighbor_idx) || true);
+                            // depths of everything already in the queue are unchanged (neighbor_idx was not visited, hence not queued)
+                            assert forall|a: int| 0 <= a < queue@.len() implies queue@[a] != neighbor_idx by {
+                                reveal(pm_ok);
+                                if queue@[a] == neighbor_idx { assert(parent_map@.contains_key(queue@[a])); }
+                            }
                         }
 """, 'prm.solve.nb.insert')
 ann('fn solve', 'loop-end while#3', r"""
@@ -1084,6 +1257,8 @@ ann('fn solve', 'before /let goal_node_idx = goal_reached\.ok_or\(PlanningError:
 ann('fn solve', 'before /Ok\(self\.reconstruct_path\(start_state, parent_map, goal_node_idx\)\)/', r"""
         proof {
             lemma_prm_path(*start_state, self.roadmap@, parent_map@, g_depth, start_connections@, goal_node_idx, &*pd.space, &**vc, self.connection_radius, rv(self.connection_radius));
+            lemma_pm_up_len(parent_map@, g_depth, self.roadmap@, start_connections@, goal_node_idx);
+            assert(prm_path(*start_state, self.roadmap@, parent_map@, g_depth, goal_node_idx).len() == g_depth[goal_node_idx] + 2);
         }
 """, 'prm.solve.ok', tags=['C01', 'C02', 'C03', 'C04', 'C05'])
 
